@@ -15,10 +15,10 @@ CLAIMED = {
     "C06": ("E2", "symbolic execution of the closures' MIR, obligations decided by z3 and cvc5",
             "bounded model checking (sequential scope): one inductive step of unique-id() from an arbitrary counter state; random($limit) in "
             "[1,limit] for every limit; concurrency is outside the claim"),
-    "C11": ("E1", "Kani/CBMC bounded model checking of the real crate",
+    "C11": ("E1+E2", "Kani/CBMC on the unit table and comparisons; MIR symbolic execution of the + / - unit selection and Numeric::partial_cmp",
             "bounded model checking: the complete 31x31 unit conversion table against an independent CSS Values 4 table, and comparison "
             "across units for all finite magnitudes on representative pairs"),
-    "C12": ("E1", "Kani/CBMC bounded model checking of the real crate",
+    "C12": ("E1+E2", "Kani/CBMC on number and colour equality; MIR symbolic execution of Numeric::partial_cmp",
             "bounded model checking: symmetry / reflexivity / trichotomy of number, numeric and rgba colour equality for ALL non-NaN doubles"),
     "C13": ("E1", "Kani/CBMC bounded model checking of the real generic OrderMap (one instantiation)",
             "bounded model checking, inductive step: one map operation from an arbitrary valid map of up to 3 entries, keys with a coarse =="),
